@@ -133,7 +133,13 @@ static int grid(int argc, char **argv) {
       u32 val = (call == 0) ? (u32)(st * 77 + (int)ii * 255) : (u32)(0x141 + 31 * svcn);
       u32 a = call == 3 ? 3 : (call == 4 ? 0x10002 : call);
       for (int k = 0; k < 8; k++) { std::string nm = "simout" + std::to_string(k); unlink(nm.c_str()); }
-      for (int k = 0; k < 8; k++) { std::ofstream f("simin" + std::to_string(k), std::ios::binary); f << (char)(0x30 + k) << (char)0xFE; }
+      // input files: present with two bytes (fin = 1), present but empty (fin = 2: end of file at once) or absent (fin = 0)
+      int fin = (int)(svcn % 3 == 0 ? 1 : (svcn % 3 == 1 ? 0 : 2));
+      for (int k = 0; k < 8; k++) {
+        std::string nm = "simin" + std::to_string(k); unlink(nm.c_str());
+        if (fin == 1) { std::ofstream f(nm, std::ios::binary); f << (char)(0x30 + k) << (char)0xFE; }
+        else if (fin == 2) { std::ofstream f(nm, std::ios::binary); }
+      }
       std::istringstream in(INS[ii]); std::ostringstream os;
       u32 pc = 8 + (svcn % 4);
       std::vector<std::pair<u32, u32>> pre, wr;
@@ -169,7 +175,7 @@ static int grid(int argc, char **argv) {
       jarr(out, pre);
       fprintf(out, ",\"in\":[");
       for (size_t q = 0; q < INS[ii].size(); q++) fprintf(out, "%s%d", q ? "," : "", (int)(unsigned char)INS[ii][q]);
-      fprintf(out, "],\"x\":1,\"post\":[%d,%d,%d,%d],\"w\":", (int)g_pc, (int)g_a, (int)g_b, (int)g_o);
+      fprintf(out, "],\"fin\":%d,\"x\":1,\"post\":[%d,%d,%d,%d],\"w\":", fin == 1 ? 1 : 0, (int)g_pc, (int)g_a, (int)g_b, (int)g_o);
       jarr(out, wr);
       fprintf(out, ",\"io\":");
       jarr(out, io);
